@@ -32,7 +32,7 @@ CLAIMED = {
     'C07': ('6.C07', 'z3 shows (rho>0 => sat) and (rho<0 => not sat) for all sample values, on whole formulas over predicate atoms and as an inductive step per '
             'operator with arbitrary operand values/truths; and verdict invariance for every second trace within |rho|; discrete offline/online and dense at symbolic tau'),
     'C08': ('6.C08', 'every spelling of each duration (unit on both/one end, mixed, default unit, constants, period in another unit) is enumerated; z3 shows each '
-            'equals the README semantics of the sample-level bound for all values (offline, online, pastified); non-multiples raise RTAMTException; dense time at symbolic tau'),
+            'equals the README semantics of the sample-level bound for all values (offline, online, pastified); non-multiples raise RTAMTException; in addition the two bounds of an operator are themselves solver variables (any rationals 0 <= B <= E <= 4 periods): rejected iff not a multiple, sample counts exact; dense time at symbolic tau'),
     'C09': ('6.C09', 'decompositions (add_sub_spec, several assertions, nested sub-specs, constants as operands/bounds) are enumerated; z3 shows the modular and the '
             'inlined monitor return the same values for all samples, for the four monitor kinds and after pastify()'),
     'C10': ('6.C10', 'pre-reset history (k symbolic updates) and post-reset inputs are symbolic; z3 shows the reset object and a fresh object return equal values and '
@@ -44,7 +44,7 @@ CLAIMED = {
     'C13': ('6.C13', 'time-stamps (not assumed monotone) and the tolerance are symbolic, period/period unit/default unit are enumerated; on every path the concrete counter '
             'is shown by z3 to equal the number of gaps outside [P(1-tol),P(1+tol)]; robustness values are shown independent of the time-stamps'),
     'C14': ('6.C14', 'BOUNDED to texts within two characters of a template and to the numeric side conditions: the character codes of one or two arbitrary '
-            'characters (any code point) replacing or inserted into each position of the templates are solver variables; the real parse() (generated ANTLR lexer/parser '
+            'characters (any code point) replacing or inserted into each position of the templates (the last one and an appended one included) are solver variables; the real parse() (generated ANTLR lexer/parser '
             'interpreted by the antlr4 runtime, error listener, parser visitor) runs on them, every comparison forks, and per path z3-feasible class the outcome must be '
             'accepted-and-derivable (independent recogniser regenerated from the .g4 files) or RTAMTException; interval bounds are arbitrary non-negative rationals and '
             'parse() may accept only 0 <= begin <= end; longer edit distances, deep nesting and termination beyond the explored paths are outside the claim'),
